@@ -38,7 +38,59 @@ var labels = []string{"a", "B", "api", "Www", "x-1"}
 var slds = []string{"example", "Example", "test"}
 var tlds = []string{"com", "ORG"}
 
-func NewGen(r *vh.Rand, profile string) *Gen {
+// StrMaterial is the string material (domain patterns, forward keys and
+// targets) of a generator. Sharing one StrMaterial between the histories of a
+// run lets cases.v state the string pool once.
+type StrMaterial struct {
+	Names, Pats, Keys, Targets []string
+}
+
+func NewStrMaterial(r *vh.Rand) *StrMaterial {
+	g := &StrMaterial{}
+	perm := func(n int) []int {
+		p := make([]int, n)
+		for i := range p {
+			p[i] = i
+		}
+		for i := n - 1; i > 0; i-- {
+			j := r.Intn(i + 1)
+			p[i], p[j] = p[j], p[i]
+		}
+		return p
+	}
+	for i := 0; i < 6; i++ {
+		nm := slds[r.Intn(len(slds))] + "." + tlds[r.Intn(len(tlds))]
+		for k := r.Intn(3); k > 0; k-- {
+			nm = labels[r.Intn(len(labels))] + "." + nm
+		}
+		g.Names = append(g.Names, nm)
+	}
+	for _, nm := range g.Names {
+		g.Pats = append(g.Pats, nm)
+		if r.Chance(2, 3) {
+			g.Pats = append(g.Pats, "*."+nm)
+		}
+		if r.Chance(1, 3) {
+			g.Pats = append(g.Pats, "*."+flipCase(r, nm))
+		}
+		if r.Chance(1, 3) {
+			g.Pats = append(g.Pats, flipCase(r, nm))
+		}
+	}
+	odd := []string{" example.com", "*.example.com ", " *.test.com", "*.", "*.*.example.com", "a..com", ".com", "com", "*.com", "example.com.", "\t*.Example.ORG", "*", "*.a", "", "*.ex ample.com"}
+	for _, i := range perm(len(odd))[:4] {
+		g.Pats = append(g.Pats, odd[i])
+	}
+	g.Keys = []string{"k1", "K1", "web", "k2"}
+	if r.Chance(1, 2) {
+		g.Keys = append(g.Keys, "")
+	}
+	g.Targets = []string{"h:1", "10.0.0.1:80", ""}
+	return g
+}
+
+// NewGen makes a generator; sm may be nil (fresh string material).
+func NewGen(r *vh.Rand, profile string, sm *StrMaterial) *Gen {
 	g := &Gen{R: r, Profile: profile}
 	// prefix pool: up to 12 per history, mostly canonical
 	perm := func(n int) []int {
@@ -60,35 +112,10 @@ func NewGen(r *vh.Rand, profile string) *Gen {
 	for _, i := range perm(len(oddPrefixes))[:no] {
 		g.Nets = append(g.Nets, MustNet(oddPrefixes[i]))
 	}
-	// domain names / patterns
-	for i := 0; i < 6; i++ {
-		nm := slds[r.Intn(len(slds))] + "." + tlds[r.Intn(len(tlds))]
-		for k := r.Intn(3); k > 0; k-- {
-			nm = labels[r.Intn(len(labels))] + "." + nm
-		}
-		g.Names = append(g.Names, nm)
+	if sm == nil {
+		sm = NewStrMaterial(r)
 	}
-	for _, nm := range g.Names {
-		g.Pats = append(g.Pats, nm)
-		if r.Chance(2, 3) {
-			g.Pats = append(g.Pats, "*."+nm)
-		}
-		if r.Chance(1, 3) {
-			g.Pats = append(g.Pats, "*."+flipCase(r, nm))
-		}
-		if r.Chance(1, 3) {
-			g.Pats = append(g.Pats, flipCase(r, nm))
-		}
-	}
-	odd := []string{" example.com", "*.example.com ", " *.test.com", "*.", "*.*.example.com", "a..com", ".com", "com", "*.com", "example.com.", "\t*.Example.ORG", "*", "*.a", "", "*.ex ample.com"}
-	for _, i := range perm(len(odd))[:3] {
-		g.Pats = append(g.Pats, odd[i])
-	}
-	g.Keys = []string{"k1", "K1", "web", "k2"}
-	if r.Chance(1, 2) {
-		g.Keys = append(g.Keys, "")
-	}
-	g.Targets = []string{"h:1", "10.0.0.1:80", ""}
+	g.Names, g.Pats, g.Keys, g.Targets = sm.Names, sm.Pats, sm.Keys, sm.Targets
 	if profile != "cidr" {
 		for _, s := range g.Pats {
 			g.strIdx(s)
